@@ -230,7 +230,7 @@ pub fn op_props(op: &Value, pre_full: bool, exp_ret: &Value) -> String {
             }
         }
         "insert_unchecked" => p.extend(["C18", "C12"]),
-        "get" | "get_mut" | "contains_key" | "index" | "index_mut" | "remove" | "retain" | "clear" => p.push("C01"),
+        "get" | "get_mut" | "contains_key" | "index" | "index_mut" | "remove" | "retain" | "clear" | "drop" => p.push("C01"),
         "get_key_value" | "remove_entry" => p.push("C01"),
         "drain" => p.extend(["C01", "C10", "C12"]),
         "cursor" => {
@@ -263,7 +263,7 @@ pub fn op_props(op: &Value, pre_full: bool, exp_ret: &Value) -> String {
                 p.push("C03");
             }
         }
-        "s_contains" | "s_remove" | "s_retain" | "s_clear" => p.push("C07"),
+        "s_contains" | "s_remove" | "s_retain" | "s_clear" | "s_drop" => p.push("C07"),
         "s_get" | "s_take" => p.extend(["C07", "C12"]),
         "s_drain" => p.extend(["C07", "C10", "C12"]),
         "s_iter" => p.extend(["C09", "C12"]),
@@ -643,6 +643,7 @@ pub fn op_label(op: &Value) -> String {
     match n {
         "cursor" => format!("cursor:{}", op["kind"].as_str().unwrap_or("")),
         "entry" => format!("entry:{}", op["m"].as_str().unwrap_or("")),
+        "clone" => format!("clone+{}", op["then"]["name"].as_str().unwrap_or("")),
         _ => n.to_string(),
     }
 }
